@@ -240,3 +240,40 @@ func ZZC02Forms() {
 	}
 	CheckExact(res.Diags, exp, "C02 forms through alias / named collection types, two files")
 }
+
+const c02SrcLocal = `package d
+
+//«ctor»
+type T struct {
+	f int
+}
+
+func NewT() *T { return &T{} }
+
+func Local() int {
+	type T struct{ f int }
+	a := T{f: 1} // L-LIT
+	b := new(T) // L-NEW
+	var c T // L-VAR
+	return a.f + b.f + c.f
+}
+
+func Shadow(pt *T) *T {
+	new := func(x *T) *T { return x }
+	return new(pt) // S-SHADOWED-NEW
+}
+
+func Renamed(pt *T) *T {
+	mk := func(x *T) *T { return x }
+	return mk(pt) // S-RENAMED
+}
+`
+
+// ZZC02Local: a function-local type that shares the annotated type's name, and a local function value named new
+// (calling it is not an instantiation; renaming it must not change the verdict — C12).
+func ZZC02Local() {
+	ctor := nd.EnumPad("ctor", " @constructor NewT", " plain")
+	prog := nd.LoadProgram([]nd.File{{Pkg: "zzmod/d", Name: "d.go", Src: c02SrcLocal}}, []nd.Hole{{"ctor", ctor}})
+	res := Analyze(prog, config.Default(), "zzmod/d", Facts{}, "ctor")
+	CheckExact(res.Diags, []Expect{}, "C02 local type / shadowed new: nothing is an instantiation of the annotated type")
+}
